@@ -270,6 +270,43 @@ theorem edges_bonds_nodup (t : RTree) (hnd : t.ids.Nodup) :
     obtain ⟨b, _, rfl⟩ := List.mem_map.1 hy
     simp [bondPair] at hxy
 
+/-! ### the labels of a node of the result -/
+
+mutual
+theorem specNodes_vlegs (ld2 : Nat → List Nat) (par : Option Nat) (t : RTree) (hnd : t.ids.Nodup)
+    (hpar : ∀ q ∈ par, q ∉ t.ids) :
+    ∀ x ∈ specNodes ld2 par t, x.legs.map (vleg x.id) =
+      x.parent.toList.map (fun q => VLeg.cEnd q x.id) ++ x.children.map (fun k => VLeg.pEnd x.id k) ++
+        (ld2 x.id).map VLeg.ax := by
+  cases t with
+  | node i kids =>
+    intro x hx
+    simp only [specNodes, List.mem_cons] at hx
+    rcases hx with rfl | hx
+    · have hq : ∀ q ∈ par, i ≠ q := by
+        intro q hq e
+        exact hpar q hq (by simp [RTree.ids, e])
+      cases par with
+      | none => simp [specNode, RTree.id, RTree.kids, vleg, Function.comp_def]
+      | some q =>
+        have := hq q rfl
+        simp [specNode, RTree.id, RTree.kids, vleg, Function.comp_def, this]
+    · exact specNodesL_vlegs ld2 i kids hnd x hx
+theorem specNodesL_vlegs (ld2 : Nat → List Nat) (i : Nat) (ks : List RTree) (hnd : (i :: RTree.idsL ks).Nodup) :
+    ∀ x ∈ specNodesL ld2 i ks, x.legs.map (vleg x.id) =
+      x.parent.toList.map (fun q => VLeg.cEnd q x.id) ++ x.children.map (fun k => VLeg.pEnd x.id k) ++
+        (ld2 x.id).map VLeg.ax := by
+  cases ks with
+  | nil => intro x hx; simp [specNodesL] at hx
+  | cons c cs =>
+    obtain ⟨hndc, hndcs, hic, _⟩ := nodup_idsL_cons hnd
+    intro x hx
+    simp only [specNodesL, List.mem_append] at hx
+    rcases hx with hx | hx
+    · exact specNodes_vlegs ld2 (some i) c hndc (by intro q hq; cases hq; exact hic) x hx
+    · exact specNodesL_vlegs ld2 i cs hndcs x hx
+end
+
 /-- `from_tensor_value`, proved here: see `Props.lean` -/
 theorem fromTensor_value {R : Type} [CommSemiring R] (t : RTree) (ld : Nat → Nat) (hnd : t.ids.Nodup)
     (dim : VLeg → Nat) (A : Asg VLeg → R) (out : List (Asg VLeg → R))
